@@ -1,28 +1,33 @@
 (* BatchStressCorr.v — free-running (ungated) concurrent batches in stop mode with TWO workers.
-   The run: item 0 is held inside its exec callback by the harness; the other worker runs items
-   1, 2, ... of which exactly one (f in 1..3) fails, all others succeed at once; the harness lets
-   item 0 go 20..60 ms after the failing call began, while the rest of the queue - hundreds of
-   thousands of items - takes several times longer to drain.
-   For EVERY schedule of such a run - two workers, exactly one failing item f, no cancellation -
-   no executed item has a larger index than a skipped one (C09_stop_flag_permanent: the flag,
-   once up, stays up; it is raised by the worker that ran f, right after that call and before
-   that worker receives anything else; C07_one_worker_per_item; FIFO queue, one submitter).
-   Argument: let X be skipped and Y > X executed; A is the worker that received X, so Y, received
-   later while A had not yet checked X, was received by the other worker O; check(Y) precedes the
-   raising of the flag, check(X) follows it.  X < f is impossible: a worker that receives an
-   item below f either runs it with the flag still down, or it was held by item 0 until f's call
-   had begun, when everything up to f had been handed out.  X > f: if A ran f, A raised the
-   flag before receiving X, so before Y was received, so before check(Y) - contradiction; if O
-   ran f, O raised the flag before receiving Y - contradiction.  No timing is assumed (with three
-   or more workers a third worker could run Y while two others are suspended at the right
-   places, which is why this part uses two).  The check allows one such item all the same.
-   Indices are Z. *)
+   The run: item 0 blocks inside its exec callback until the harness lets it go; the other
+   worker runs items 1, 2, ... of which exactly one (f in 1..3) fails, all others succeed at
+   once; the harness lets item 0 go 20..60 ms after the failing call began, while the rest of
+   the queue - hundreds of thousands of items - takes several times longer to drain.
+   For EVERY schedule of such a run - two workers A and B, exactly one failing item f, no
+   cancellation, FIFO queue with one submitter, the flag raised by the worker that ran f right
+   after that call and before it receives anything else, and never lowered
+   (C09_stop_flag_permanent), one item per worker at a time (C07_one_worker_per_item) -
+        an executed item that has a larger index than some skipped item is at most f.
+   Argument: let X be skipped and Y > X executed, B the worker that ran f, t the instant the flag
+   went up.  check(Y) < t < check(X), and Y was received after X.  If Y was run by the worker
+   that received X, that worker checked X before Y: impossible.  So X's worker sat between
+   receiving X and checking it from before Y was received until after t, and Y was run by the
+   other worker, before t.  If that other worker is B, then Y <= f, because B runs nothing
+   between f and t.  If it is A, then X's worker is B, sitting on X across t: but at t B is
+   recording f, not sitting on an unchecked item.  (A worker may well sit between receiving
+   an item and checking it while the other one runs 1 .. f: then items up to f are executed
+   after a skipped one - this happened on a loaded machine and an earlier, stronger claim of
+   this file raised a false alarm on it.)
+   The check counts the executed items that are larger than the smallest skipped item AND
+   larger than f, and allows one.  With the stop flag falling again, almost all of the queue
+   is executed after skipped items.  Indices are Z. *)
 From Coq Require Export List ZArith Bool.
 Export ListNotations.
 #[local] Open Scope Z_scope.
 
 Record bstress := {
   bs_n : Z; bs_workers : Z;
+  bs_fail : Z;                   (* the one item whose exec fails *)
   bs_executed : list Z;          (* items for which the exec callback ran (at most 1000 of those above
                                     the smallest skipped one are listed) *)
   bs_skipped : list Z;           (* the smallest item whose slot is the "batch stopped" error, if any *)
@@ -38,7 +43,7 @@ Definition min_list (l : list Z) : option Z :=
 Definition inversions (o : bstress) : Z :=
   match min_list (bs_skipped o) with
   | None => 0
-  | Some m => Z.of_nat (length (filter (fun y => m <? y) (bs_executed o)))
+  | Some m => Z.of_nat (length (filter (fun y => (m <? y) && (bs_fail o <? y)) (bs_executed o)))
   end.
 
 Definition bxscen := nat.
@@ -51,3 +56,15 @@ Definition bxscen_failing (spec : bxscen -> bstress -> bool) (cs : list (nat * b
          (map (fun c => let '(i, s, ob) := c in (i, spec s ob, spec s ob, true)) cs).
 Definition accepted_s {Sc Ob : Type} (admits : Sc -> Ob -> bool) (cs : list (nat * Sc * Ob)) : list nat :=
   map (fun c => fst (fst c)) (filter (fun c => let '(_, s, ob) := c in admits s ob) cs).
+
+(* ------------------------------------------------------------ C08: batches do not share workers *)
+(* several batches of concurrency c running at the same time, c items each, every exec call
+   waiting for all calls of all batches to be inside exec: each batch has c workers of its own
+   (C08_usable holds per batch), so the rendezvous completes *)
+Record bprobe := { bp_expected : nat; bp_inside : nat; bp_met : bool; bp_returned : bool }.
+Definition bpscen := nat.
+Definition spec_C08_probe (_ : bpscen) (o : bprobe) : bool :=
+  bp_met o && bp_returned o && Nat.eqb (bp_inside o) (bp_expected o).
+Definition bpscen_failing (spec : bpscen -> bprobe -> bool) (cs : list (nat * bpscen * bprobe)) :=
+  filter (fun r => negb (snd (fst (fst r)) && snd (fst r) && snd r))
+         (map (fun c => let '(i, s, ob) := c in (i, spec s ob, spec s ob, true)) cs).
